@@ -1118,15 +1118,25 @@ class Transformer:
             Pacific/Apia, Asia/Dhaka, Asia/Karachi, Asia/Yerevan
         """
         anchored_policies: List[str] = []
+        results: RulesMap = {}
+        removed_policies: CommentsCollection = {}
         for name, rules in rules_map.items():
             if not self._has_prior_rule(rules):
                 anchor_rule = self._get_anchor_rule(rules)
+                if anchor_rule is None:
+                    _add_reason(
+                        removed_policies, name,
+                        "no rule with SAVE 0 to derive the initial LETTER from")
+                    continue
                 rules.insert(0, anchor_rule)
                 anchored_policies.append(name)
+            results[name] = rules
 
         logging.info('Added anchor rule to %s rule policies: %s',
                      len(anchored_policies), anchored_policies)
-        return rules_map
+        self._print_removed_map(removed_policies)
+        _merge_reasons(self.all_removed_policies, removed_policies)
+        return results
 
     def _has_prior_rule(self, rules: List[ZoneRuleRaw]) -> bool:
         """Return True if rules has a rule prior to (self.start_year-1).
@@ -1137,9 +1147,11 @@ class Transformer:
                 return True
         return False
 
-    def _get_anchor_rule(self, rules: List[ZoneRuleRaw]) -> ZoneRuleRaw:
+    def _get_anchor_rule(
+        self, rules: List[ZoneRuleRaw],
+    ) -> Optional[ZoneRuleRaw]:
         """Return the anchor rule that will act as the earliest rule with SAVE
-        == 0.
+        == 0, or None if no rule has SAVE == 0.
         """
         AnchorInfo = TypedDict('AnchorInfo', {
             'earliestDate': Tuple[int, int, int],
@@ -1150,8 +1162,8 @@ class Transformer:
             'earliestDate': (MAX_UNTIL_YEAR, 12, 31),
             'rule': None,
         }
-        # rules will never be empty, so this will always produce a
-        # non-empty anchor_info['rule'].
+        # rules will never be empty, but it can happen that none of them has
+        # SAVE == 0, in which case anchor_info['rule'] remains None.
         for rule in rules:
             from_year = rule['fromYear']
             in_month = rule['inMonth']
@@ -1166,6 +1178,8 @@ class Transformer:
                 anchor_info['earliestDate'] = rule_date
                 anchor_info['rule'] = rule
 
+        if anchor_info['rule'] is None:
+            return None
         anchor_rule = cast(ZoneRuleRaw, anchor_info['rule']).copy()
         anchor_rule['fromYear'] = MIN_YEAR
         anchor_rule['toYear'] = MIN_YEAR
